@@ -1476,9 +1476,16 @@ func mapDom(o *Term) *Term { return tField(o, 0) }
 func mapVal(o *Term) *Term { return tField(o, 1) }
 
 func (f *Frame) mapLookup(st *State, m *Term, mt *types.Map, k *Term) (*Term, *Term) {
+	// a map reference that is itself the result of a guarded lookup (ite(found, ref, nil): m[u][t]) is looked through:
+	// the guard moves into `found`, so that the select terms contain no ite and can serve as instantiation patterns
+	guard := tTrue()
+	for m.Op == "ite" && m.Args[2] == tInt(0) {
+		guard = tAnd(guard, m.Args[0])
+		m = m.Args[1]
+	}
 	o := f.mapObj(st, m, mt)
 	isNil := tEq(m, tInt(0))
-	found := tAnd(tNot(isNil), tSelect(mapDom(o), k))
+	found := tAnd(guard, tAnd(tNot(isNil), tSelect(mapDom(o), k)))
 	v := tIte(found, tSelect(mapVal(o), k), zeroOf(mt.Elem()))
 	return v, found
 }
@@ -1510,6 +1517,14 @@ func (f *Frame) execMapUpdate(ins *ssa.MapUpdate, st *State) {
 	mt := ins.Map.Type().Underlying().(*types.Map)
 	f.safe(st, "nilmap", tNot(tEq(m, tInt(0))), ins.Pos(), "assignment to entry in nil map "+ins.Map.Name())
 	f.mapStore(st, m, mt, k, v)
+	// store lemma "after m[k] = v, k is a key of m", stated through an alias of m so that it is not simplified away:
+	// it puts the ground term dom(M'[m])[k] in front of the solver, which quantified goals of the form
+	// "exists k :: has(m, k)" need as their witness
+	if !m.open && !k.open {
+		alias := fresh("mref", sortInt)
+		f.addHyp(st.pc, tEq(alias, m))
+		f.addHyp(st.pc, tSelect(mapDom(f.mapObj(st, alias, mt)), k))
+	}
 }
 
 func (f *Frame) mapStore(st *State, m *Term, mt *types.Map, k, v *Term) {
